@@ -7,6 +7,7 @@ from ..engine.loader import Unknown, norm_text, walk_local
 from ..rules import guards
 from ..rules.world import eager_interp, emit_report_summary, Shapes
 from . import c11
+from . import c02
 
 EXPLANATION = (
     "generate_listing is abstractly executed on a symbol table that realises every order relation the statement mentions "
@@ -29,7 +30,7 @@ def rule_listing(ck):
     I.summaries = {"reports::emit_report": emit_report_summary, "deferred::wait": lambda I_, fn, a, k: a[0]}
     table = [
         (".internal1.zeta", 0o1000), (".internal1.alpha", 0o1010), (".internal1.beta", 0o1000), (".internal2.gamma", 5), (".internal1.Big", 0o1234567),
-        (".local3.1", 0o1004), (".internal2.delta", 0o177777), (".internal1.a.b", 0o1004),
+        (".local3.1", 0o1004), (".internal2.delta", 0o177777), (".internal1.a.b", 0o1004), (".internal2.Huge", 0o1000000), (".internal2.mid", 0o200000),
     ]
 
     def thunk():
@@ -166,3 +167,4 @@ def run(ck):
     ck.run_rule("P8", "oct(v)[2:] is sign-safe", 2, rule_P8)
     ck.run_rule("C19.path", "listing is named after the first output; .lst derivation", 7, rule_paths)
     ck.run_rule("C11.R1k", "reader/writer agreement on the '.internal<n>.' key grammar", 3, c11.rule_R1k)
+    ck.run_rule("C02.R7w", "listed values are final: every symbol is evaluated before the listing", 1, c02.rule_closing_wait)
